@@ -137,6 +137,8 @@ fn sx_tag(c: &ConcreteType) -> String {
 struct Tables {
     compat: Vec<HashSet<ConcreteType>>,
     canon: Vec<usize>,
+    fparam: Vec<HashSet<ConcreteType>>,
+    bparam: Vec<HashSet<ConcreteType>>,
 }
 
 /// The tables `execute_bytecode_sync` / `merge_bytecode` compute for a stand-alone bytecode.
@@ -148,7 +150,8 @@ fn tables_of(bc: &Bytecode) -> Tables {
         builtins: &bc.builtins,
         resource_names: &bc.resources,
     };
-    Tables { compat: compute_type_compatibility(&input), canon: compute_canonical_tuples(&bc.tuples) }
+    let (fparam, bparam) = quiver_core::compatibility::compute_param_compatibility(&input);
+    Tables { compat: compute_type_compatibility(&input), canon: compute_canonical_tuples(&bc.tuples), fparam, bparam }
 }
 
 fn sx_prog(slot: &str, bc: &Bytecode, t: &Tables) -> String {
@@ -204,6 +207,14 @@ fn sx_prog(slot: &str, bc: &Bytecode, t: &Tables) -> String {
     s.push_str(") (canon");
     for c in &t.canon {
         s.push_str(&format!(" {c}"));
+    }
+    for (name, rows) in [("fparam", &t.fparam), ("bparam", &t.bparam)] {
+        s.push_str(&format!(") ({name}"));
+        for row in rows.iter() {
+            let mut tags: Vec<String> = row.iter().map(sx_tag).collect();
+            tags.sort();
+            s.push_str(&format!(" ({})", tags.join(" ")));
+        }
     }
     s.push_str("))");
     s
@@ -358,7 +369,12 @@ fn run_in_env(b: &Builtins, bc: &Bytecode, history: &[Bytecode], workers: usize,
         for (_, cmd) in &c.cmd_log {
             match cmd {
                 Command::UpdateProgram(u) => {
-                    tables = Some(Tables { compat: u.type_compatibility.clone(), canon: u.canonical_tuples.clone() });
+                    tables = Some(Tables {
+                        compat: u.type_compatibility.clone(),
+                        canon: u.canonical_tuples.clone(),
+                        fparam: u.function_param_compatibility.clone(),
+                        bparam: u.builtin_param_compatibility.clone(),
+                    });
                 }
                 Command::StartProcess { id, function_index } if *id == pid => entry = *function_index,
                 _ => {}
@@ -594,8 +610,10 @@ fn gen_program(r: &mut Rng) -> Gen {
         }
         1 => {
             // typed receive of a process value (the F13 shape, local to the body)
+            defs.insert(0, "'pr = @'int".to_string());
+            defs.insert(1, "'par = @'pr".to_string());
             body = format!(
-                "me = &., q = &me @#(@'int) {{ =parent, &. parent, !'int }}, !#(@'int) =got, {} got, r = !q, [r, {}]",
+                "g = #'par {{ =parent, &. parent, !'int }}, me = &., p = &me @g, !#'pr =q, {} q, r = !p, [r, {}]",
                 r.pick(&ints),
                 parts.join(", ")
             );
@@ -664,6 +682,13 @@ fn validate(cx: &mut Ctx, a: &Bytecode, ta: &Tables, ea: usize, b: &Bytecode, tb
     let t0 = std::time::Instant::now();
     let ans = cx.model.ask(&format!("(check-renaming {ea} {eb})"));
     let dt = t0.elapsed().as_millis();
+    if let Some(x) = ans.split_whitespace().find_map(|w| w.strip_prefix("exempt=")) {
+        let n: u64 = x.parse().unwrap_or(0);
+        if n > 0 {
+            cx.ev.hit("validated:with-absent-tag-exemptions");
+            cx.ev.add("exempt:row-tag-pairs", n);
+        }
+    }
     if dt > 500 && std::env::var("VERIF_DEBUG").is_ok() {
         eprintln!("slow check-renaming {dt} ms: fns {} -> {}, types {} -> {}, ans {}", a.functions.len(), b.functions.len(), a.types.len(), b.types.len(), &ans[..ans.len().min(80)]);
     }
@@ -847,18 +872,68 @@ fn compile(cx: &mut Ctx, src: &str, modules: &HashMap<Vec<String>, String>) -> O
     }
 }
 
+/// `execute_bytecode_sync`, step for step, but giving up (instead of spinning forever) when the
+/// top-level code parks on a scheduler action (spawn / select / effect) or exceeds a step budget.
+fn run_sync_guarded(bc: Bytecode, b: &Builtins) -> Option<(Value, qverif::run::Exec)> {
+    let r = qverif::catch(|| {
+        let entry = bc.entry?;
+        let mut ex = qverif::run::Exec::new(b.clone(), false, 0);
+        let t = tables_of(&bc);
+        let input = CompatibilityInput {
+            types: &bc.types,
+            tuples: &bc.tuples,
+            functions: &bc.functions,
+            builtins: &bc.builtins,
+            resource_names: &bc.resources,
+        };
+        let _ = &input;
+        let (fpc, bpc) = (t.fparam.clone(), t.bparam.clone());
+        let upd = quiver_core::executor::ProgramUpdate {
+            constants: bc.constants.clone(),
+            functions: bc.functions.clone(),
+            tuples: bc.tuples[2..].to_vec(),
+            types: bc.types.clone(),
+            builtins: bc.builtins.clone(),
+            resources: bc.resources.clone(),
+            type_compatibility: t.compat,
+            function_param_compatibility: fpc,
+            builtin_param_compatibility: bpc,
+            canonical_tuples: t.canon,
+        };
+        ex.update_program(upd);
+        ex.spawn_process(0, Some(entry), vec![], Value::nil(), vec![], false).ok()?;
+        for _ in 0..20_000 {
+            let (did, action) = ex.step(1000, 0);
+            if action.is_some() || !did {
+                return None;
+            }
+            let p = ex.get_process(0)?;
+            if let Some(res) = &p.result {
+                return match res {
+                    Ok(v) => Some((v.clone(), ex)),
+                    Err(_) => None,
+                };
+            }
+        }
+        None
+    });
+    r.ok().flatten()
+}
+
 /// The `quiv run` recipe (`compile_and_extract_entry`): evaluate the program on the sync path, take
 /// the function it evaluates to, inject its captures. `None` if the program is not of that shape.
 fn extract_entry(cx: &mut Ctx, src: &str, modules: &HashMap<Vec<String>, String>) -> Option<(Bytecode, usize)> {
     let u = compile_source(src, modules, cx.b).ok()?;
     let bc = u.program.to_bytecode(Some(u.entry));
-    if !sequential(&bc, u.entry) {
-        cx.ev.hit("extract:top-level-not-sequential");
-        return None;
-    }
     let mut program = u.program;
-    let (out, ex) = run_sync(bc, cx.b, false);
-    let (RunOutcome::Value(Value::Function(fi, caps)), Some(ex)) = (out, ex) else {
+    let (v, ex) = match run_sync_guarded(bc, cx.b) {
+        Some(x) => x,
+        None => {
+            cx.ev.hit("extract:top-level-not-sequential");
+            return None;
+        }
+    };
+    let Value::Function(fi, caps) = v else {
         return None;
     };
     let entry = if caps.is_empty() {
@@ -986,6 +1061,55 @@ fn main() {
     let model = Model::spawn(opts.model.as_ref().expect("--model"));
     let mut cx = Ctx { b: &b, model, ev, max_rounds: 4000, pool: vec![] };
     let no_modules: HashMap<Vec<String>, String> = HashMap::new();
+
+    // ---- single-source / replay mode ------------------------------------------------------------
+    // `--src '<program>'` or `--replay <file>` (replay.source, optional replay.extra.module):
+    // run every path on that one program and print the full report.
+    let single: Option<(String, HashMap<Vec<String>, String>)> = if let Some(p) = &opts.replay {
+        let j: serde_json::Value = serde_json::from_str(&std::fs::read_to_string(p).expect("replay file")).expect("replay json");
+        let src = j["replay"]["source"].as_str().unwrap_or("").to_string();
+        let mut m = HashMap::new();
+        if let Some(ms) = j["replay"]["extra"]["module"].as_str() {
+            m.insert(vec!["m".to_string()], ms.to_string());
+        }
+        Some((src, m))
+    } else if let Some(i) = opts.extra.iter().position(|x| x == "--src") {
+        Some((opts.extra.get(i + 1).cloned().unwrap_or_default(), HashMap::new()))
+    } else {
+        None
+    };
+    if let Some((src, modules)) = single {
+        for s in [
+            "x = 1, Point[x: x, y: 2]",
+            "u = 1 { | =0 => A[1] | =1 => B[x: 2] | 3 }, u { | =A[a] => a | =B[x: b] => b | =('int)i => i }",
+            "p = @{ !'int }, 7 p, !p",
+            "[1, 2] %num.add",
+        ] {
+            if let Some((bc, _)) = compile(&mut cx, s, &no_modules) {
+                cx.pool.push(bc);
+            }
+        }
+        let mut r = Rng::for_case(opts.seed, 0);
+        println!("source: {src}");
+        match compile(&mut cx, &src, &modules) {
+            None => println!("rejected by the front end"),
+            Some((p, e)) => {
+                let rep = packaging_case(&mut cx, &mut r, "single", &src, &p, e);
+                println!("[wrapper] outcomes: {:?}\n[wrapper] rejections: {:?}", rep.outcomes, rep.rejections);
+                report(&mut cx, "wrapper", "single", &src, &rep, json!({}));
+            }
+        }
+        if let Some((pb, eb)) = extract_entry(&mut cx, &src, &modules) {
+            let rep = packaging_case(&mut cx, &mut r, "single", &src, &pb, eb);
+            println!("[entry] outcomes: {:?}\n[entry] rejections: {:?}", rep.outcomes, rep.rejections);
+            report(&mut cx, "entry", "single", &src, &rep, json!({}));
+        } else {
+            println!("[entry] program does not evaluate to a function on the sync path");
+        }
+        let Ctx { model, ev, .. } = cx;
+        drop(model);
+        std::process::exit(ev.finish());
+    }
 
     // ---- sources -----------------------------------------------------------------------------
     let mut sources: Vec<(String, String)> = vec![];
